@@ -1346,6 +1346,11 @@ func (ra *ringAbs) applyEdge(o *rstate, qv ssa.Value, iff *ssa.If, i int) bool {
 			o.geZ[c] = true
 		}
 	}
+	if k, ok := constInt(cm.X); ok && ((cm.Op == token.LEQ && k >= 0) || (cm.Op == token.LSS && k >= -1)) {
+		if c := ra.clsOf(o, cm.Y, 0); c.ok {
+			o.geZ[c] = true // written as  0 <= v
+		}
+	}
 	if ctx.empty(o.head) || ctx.empty(o.n) {
 		return false
 	}
